@@ -78,14 +78,23 @@ def src_stmt(s):
             cases.append({"l": lab, "b": src_stmts(c["b"])})
         return [{"s": "switch", "init": src_one(s.get("init")), "tag": ("tr.T(%d)" % s["tag"]) if s.get("tag") is not None else None, "cases": cases}]
     if k == "for":
-        return [{"s": "for", "init": src_one(s.get("init")), "c": ("tr.C(%d)" % s["c"]) if s.get("c") is not None else None,
-                 "post": src_one(s.get("post")), "b": src_stmts(s["b"])}]
+        init = s.get("init")
+        loop = {"s": "for", "init": None, "c": ("tr.C(%d)" % s["c"]) if s.get("c") is not None else None,
+                "post": src_one(s.get("post")), "b": src_stmts(s["b"])}
+        if init and init["s"] == "decl":
+            # pass0 of the rewriter (rewriteReturnAndForSwitchInitStmtInYieldFun) hoists a ':=' initialiser of a for statement of a
+            # generator into a fresh block: { x := …; for ; c; post { … } }  (the lowering keeps the scope lists: coq/Scope.v hoist_scope)
+            return [{"s": "block", "b": [{"s": "atom", "t": norm("%s := tr.I(%d)" % (init["x"], init["id"]))}, loop]}]
+        loop["init"] = src_one(init)
+        return [loop]
     return src_simple(s)
 
 
 def src_one(s):
     if s is None:
         return None
+    if s["s"] == "inc":
+        return {"s": "atom", "t": norm("%s++" % s["x"])}
     r = src_stmt(s)
     assert len(r) == 1
     return r[0]
